@@ -274,6 +274,10 @@ def task_gc(arg):
     counters = {"evaluations": 0, "nontrivial": 0, "decisions": 0}
     viol, seen, add = _adder()
     species = {"H": Atoms("H"), "Cu": Atoms("Cu"), "H2O": Atoms("H2O", positions=[[0, 0, 0], [0, 0.76, 0.59], [0, -0.76, 0.59]])}
+    species["D"] = Atoms("H")  # an isotope: masses set by the user differ from the tabulated ones
+    species["D"].set_masses([2.014])
+    species["HDO"] = species["H2O"].copy()
+    species["HDO"].set_masses([15.999, 1.008, 2.014])
     for T in arg["T"]:
         for dE in sub(DE_GRID, tier):
             for nex in [0, 1, 2, 10, 1000]:
